@@ -163,6 +163,11 @@ def decorrelate(select, parent_select, external_columns, next_alias_name):
         # The predicate is replaced with TRUE below, which is only sound if its result flows
         # into the WHERE through conjunctions; wrappers like NOT would invert that TRUE.
         predicate = column.find_ancestor(exp.Predicate)
+
+        # A predicate that mentions several external columns is only converted once
+        if any(predicate is seen for *_, seen in keys):
+            continue
+
         ancestor = predicate.parent if predicate else None
         while isinstance(ancestor, (exp.And, exp.Paren)):
             ancestor = ancestor.parent
